@@ -21,7 +21,39 @@ enum Val {
     W32(String),   // a 32-bit word: Lean term of type BitVec 32
     SN(String),    // a u64 parameter used as a count / size: Lean variable of type Nat (its word is `BitVec.ofNat 64 n`)
     SE(String),    // a u64 value computed from such a parameter: Lean term of type Nat (already reduced mod 2^64)
+    B(String),     // a byte: Lean term of type BitVec 8
+    Slice(String, usize, usize), // a view (env key of the underlying array, start, length): `&x[a..b]`
+    Bool(bool),    // a condition that is decided by the (literal) lengths
+    List(Vec<Val>), // the items of an iterator (`iter_mut`, `zip`, `chunks_exact` over literal lengths)
+    Range(Option<usize>, Option<usize>),
+    Opt(Option<Box<Val>>),
     Unit,
+}
+
+fn pre(v: &Val) -> Val {
+    match v {
+        Val::Ref(k) => Val::Ref(format!("^{k}")),
+        Val::ElemRef(k, i) => Val::ElemRef(format!("^{k}"), *i),
+        Val::Slice(k, a, b) => Val::Slice(format!("^{k}"), *a, *b),
+        Val::Arr(a) => Val::Arr(a.iter().map(pre).collect()),
+        Val::Tup(a) => Val::Tup(a.iter().map(pre).collect()),
+        Val::List(a) => Val::List(a.iter().map(pre).collect()),
+        Val::Opt(Some(x)) => Val::Opt(Some(Box::new(pre(x)))),
+        o => o.clone(),
+    }
+}
+fn unpre(v: &Val) -> Val {
+    let st = |k: &String| k.strip_prefix('^').unwrap_or(k).to_string();
+    match v {
+        Val::Ref(k) => Val::Ref(st(k)),
+        Val::ElemRef(k, i) => Val::ElemRef(st(k), *i),
+        Val::Slice(k, a, b) => Val::Slice(st(k), *a, *b),
+        Val::Arr(a) => Val::Arr(a.iter().map(unpre).collect()),
+        Val::Tup(a) => Val::Tup(a.iter().map(unpre).collect()),
+        Val::List(a) => Val::List(a.iter().map(unpre).collect()),
+        Val::Opt(Some(x)) => Val::Opt(Some(Box::new(unpre(x)))),
+        o => o.clone(),
+    }
 }
 
 struct Ex<'a> {
@@ -30,6 +62,9 @@ struct Ex<'a> {
     fresh: usize,
     fns: &'a HashMap<String, syn::ImplItemFn>,
     depth: usize,
+    ret: Option<Val>,
+    release_plus: bool,
+    opaque: Vec<String>, // helpers that are applied (as their generated `Gen.*` definition) instead of inlined
 }
 
 type R<T> = Result<T, String>;
@@ -40,7 +75,7 @@ fn lit_u64(l: &syn::LitInt) -> R<u64> {
 
 impl<'a> Ex<'a> {
     fn new(fns: &'a HashMap<String, syn::ImplItemFn>) -> Self {
-        Ex { env: HashMap::new(), lets: Vec::new(), fresh: 0, fns, depth: 0 }
+        Ex { env: HashMap::new(), lets: Vec::new(), fresh: 0, fns, depth: 0, ret: None, release_plus: false, opaque: Vec::new() }
     }
     fn bind(&mut self, e: String) -> Val {
         self.fresh += 1;
@@ -61,6 +96,67 @@ impl<'a> Ex<'a> {
             other => Err(format!("expected a word, got {:?}", other)),
         }
     }
+    fn byte(&self, v: &Val) -> R<String> {
+        match v {
+            Val::B(s) => Ok(s.clone()),
+            Val::N(n) if *n < 256 => Ok(format!("({n}#8)")),
+            Val::Ref(k) => self.byte(self.env.get(k).ok_or("dangling ref")?),
+            Val::ElemRef(k, i) => match self.env.get(k) {
+                Some(Val::Arr(a)) if *i < a.len() => self.byte(&a[*i]),
+                _ => Err("dangling element ref".into()),
+            },
+            other => Err(format!("expected a byte, got {:?}", other)),
+        }
+    }
+    /// follow `Ref` links from an environment key to the entry that holds the value
+    fn chase(&self, mut k: String) -> String {
+        for _ in 0..16 {
+            match self.env.get(&k) {
+                Some(Val::Ref(k2)) => k = k2.clone(),
+                _ => break,
+            }
+        }
+        k
+    }
+    /// an array or slice as (key of the underlying array, start, length)
+    fn sliceable(&mut self, e: &Expr) -> R<(String, usize, usize)> {
+        let v = self.eval(e)?;
+        self.sliceable_val(v, Some(e))
+    }
+    fn sliceable_val(&mut self, v: Val, e: Option<&Expr>) -> R<(String, usize, usize)> {
+        match v {
+            Val::Slice(k, a, n) => Ok((k, a, n)),
+            Val::Ref(k) => {
+                let k = self.chase(k);
+                match self.env.get(&k) {
+                    Some(Val::Arr(a)) => Ok((k.clone(), 0, a.len())),
+                    Some(Val::Slice(k2, a, n)) => Ok((k2.clone(), *a, *n)),
+                    _ => Err("reference to a non-array".into()),
+                }
+            }
+            Val::Arr(a) => {
+                let e = e.ok_or("array temporary used as a slice")?;
+                let (k, idx) = self.place_key(e)?;
+                if idx.is_some() {
+                    return Err("element used as a slice".into());
+                }
+                Ok((k, 0, a.len()))
+            }
+            o => Err(format!("expected an array or slice, got {:?}", o)),
+        }
+    }
+    fn items(&mut self, v: Val) -> R<Vec<Val>> {
+        match v {
+            Val::List(l) => Ok(l),
+            o => {
+                let (k, a, n) = self.sliceable_val(o, None)?;
+                match self.env.get(&k) {
+                    Some(Val::Arr(arr)) if a + n <= arr.len() => Ok(arr[a..a + n].to_vec()),
+                    _ => Err("items of a dangling slice".into()),
+                }
+            }
+        }
+    }
     fn place_key(&mut self, e: &Expr) -> R<(String, Option<usize>)> {
         // returns (env key, element index)
         match e {
@@ -73,23 +169,38 @@ impl<'a> Ex<'a> {
                     Val::N(n) => n as usize,
                     o => return Err(format!("index is not a literal: {:?}", o)),
                 };
-                Ok((k, Some(i)))
+                match self.env.get(&k) {
+                    Some(Val::Slice(k2, a, n)) => {
+                        if i >= *n {
+                            return Err("index out of bounds (the source would panic)".into());
+                        }
+                        Ok((k2.clone(), Some(a + i)))
+                    }
+                    Some(Val::Arr(a)) if i >= a.len() => Err("index out of bounds (the source would panic)".into()),
+                    _ => Ok((k, Some(i))),
+                }
             }
             Expr::Field(f) => {
                 let base = match &*f.base {
                     Expr::Path(p) if p.path.is_ident("self") => "self".to_string(),
-                    _ => return Err("field of non-self".into()),
+                    other => {
+                        let (k, idx) = self.place_key(other)?;
+                        if idx.is_some() {
+                            return Err("field of an element".into());
+                        }
+                        k
+                    }
                 };
                 let name = match &f.member {
                     syn::Member::Named(id) => id.to_string(),
                     _ => return Err("tuple field".into()),
                 };
-                Ok((format!("{base}.{name}"), None))
+                Ok((self.chase(format!("{base}.{name}")), None))
             }
             Expr::Path(p) => {
                 let id = p.path.get_ident().ok_or("path place")?.to_string();
                 match self.env.get(&id) {
-                    Some(Val::Ref(k)) => Ok((k.clone(), None)),
+                    Some(Val::Ref(k)) => Ok((self.chase(k.clone()), None)),
                     Some(Val::ElemRef(k, i)) => Ok((k.clone(), Some(*i))),
                     Some(_) => Ok((id, None)),
                     None => Err(format!("unknown variable {id}")),
@@ -117,6 +228,16 @@ impl<'a> Ex<'a> {
     fn bin(&mut self, op: &BinOp, l: Val, r: Val) -> R<Val> {
         // integer arithmetic on literals (indices)
         if let (Val::N(a), Val::N(b)) = (&l, &r) {
+            match op {
+                BinOp::Gt(_) => return Ok(Val::Bool(a > b)),
+                BinOp::Lt(_) => return Ok(Val::Bool(a < b)),
+                BinOp::Ge(_) => return Ok(Val::Bool(a >= b)),
+                BinOp::Le(_) => return Ok(Val::Bool(a <= b)),
+                BinOp::Eq(_) => return Ok(Val::Bool(a == b)),
+                BinOp::Ne(_) => return Ok(Val::Bool(a != b)),
+                BinOp::Rem(_) if *b != 0 => return Ok(Val::N(a % b)),
+                _ => {}
+            }
             return Ok(Val::N(match op {
                 BinOp::Add(_) | BinOp::AddAssign(_) => a + b,
                 BinOp::Sub(_) | BinOp::SubAssign(_) => a.checked_sub(*b).ok_or("underflow")?,
@@ -132,6 +253,8 @@ impl<'a> Ex<'a> {
         // 32-bit halves and symbolic counts (release semantics: shift counts are masked to the width, `-` on u64 wraps)
         match (&l, &r, op) {
             (Val::N(a), Val::SN(c), BinOp::Sub(_)) => return Ok(Val::SE(format!("((2^64 + {a} - {c}) % 2^64)"))),
+            (Val::W32(x), Val::N(c), BinOp::Shl(_)) => return Ok(Val::W32(format!("({x} <<< {})", c % 32))),
+            (Val::W32(x), Val::N(c), BinOp::Shr(_)) => return Ok(Val::W32(format!("({x} >>> {})", c % 32))),
             (Val::W32(x), Val::SN(c), BinOp::Shl(_)) => return Ok(Val::W32(format!("({x} <<< ({c} % 32))"))),
             (Val::W32(x), Val::SN(c), BinOp::Shr(_)) => return Ok(Val::W32(format!("({x} >>> ({c} % 32))"))),
             (Val::W32(x), Val::SE(c), BinOp::Shl(_)) => return Ok(Val::W32(format!("({x} <<< ({c} % 32))"))),
@@ -148,6 +271,10 @@ impl<'a> Ex<'a> {
                 return Ok(self.bind(format!("({a} + {b})")));
             }
             _ => {}
+        }
+        if let (true, BinOp::Add(_)) = (self.release_plus, op) {
+            let (a, b) = (self.word(&l)?, self.word(&r)?);
+            return Ok(self.bind(format!("({a} + {b})")));
         }
         let lw = self.word(&l)?;
         let e = match op {
@@ -167,15 +294,57 @@ impl<'a> Ex<'a> {
         Ok(self.bind(e))
     }
     fn call_fn(&mut self, name: &str, args: Vec<Val>) -> R<Val> {
-        let f = self.fns.get(name).ok_or_else(|| format!("call of untranslated function {name}"))?.clone();
-        if self.depth > 4 {
-            return Err("call depth".into());
+        self.call_with_self(name, None, args)
+    }
+    /// inline a call; `self_prefix` = the caller's environment prefix that the callee sees as `self`
+    /// (`self` for `self.f(..)`, `self.buffer` for `self.buffer.f(..)`)
+    fn call_with_self(&mut self, name: &str, self_prefix: Option<&str>, args: Vec<Val>) -> R<Val> {
+        if self.opaque.iter().any(|o| o == name) {
+            match (name, self_prefix, args.as_slice()) {
+                ("update_lanes", Some("self"), [Val::N(n)]) => {
+                    let st = st_text(self)?;
+                    self.fresh += 1;
+                    let nm = format!("s{}", self.fresh);
+                    self.lets.push((format!("{nm} : St"), format!("updateLanes {st} {n}")));
+                    for f in ["v0", "v1", "mul0", "mul1"] {
+                        let k = self.chase(format!("self.{f}"));
+                        self.env.insert(k, v4vars(&format!("{nm}.{f}")));
+                    }
+                    return Ok(Val::Unit);
+                }
+                ("update", Some("self"), [lanes]) => {
+                    let st = st_text(self)?;
+                    let lanes = match lanes {
+                        Val::Ref(k) => self.env.get(&self.chase(k.clone())).cloned().ok_or("dangling")?,
+                        o => o.clone(),
+                    };
+                    let l = v4_text(self, &lanes)?;
+                    self.fresh += 1;
+                    let nm = format!("s{}", self.fresh);
+                    self.lets.push((format!("{nm} : St"), format!("update {st} {l}")));
+                    for f in ["v0", "v1", "mul0", "mul1"] {
+                        let k = self.chase(format!("self.{f}"));
+                        self.env.insert(k, v4vars(&format!("{nm}.{f}")));
+                    }
+                    return Ok(Val::Unit);
+                }
+                ("data_to_lanes", None, [d]) => {
+                    let items = self.items(d.clone())?;
+                    if items.len() != 32 {
+                        return Err("data_to_lanes of a slice that is not 32 bytes".into());
+                    }
+                    let bs: Vec<String> = items.iter().map(|x| self.byte(x)).collect::<R<_>>()?;
+                    self.fresh += 1;
+                    let nm = format!("v{}", self.fresh);
+                    self.lets.push((format!("{nm} : V4"), format!("dataToLanes {}", bs.join(" "))));
+                    return Ok(v4vars(&nm));
+                }
+                _ => return Err(format!("call shape of {name}")),
+            }
         }
-        let saved = std::mem::take(&mut self.env);
-        // keep the caller's entries reachable through references: copy everything under a prefix
-        let mut inner: HashMap<String, Val> = HashMap::new();
-        for (k, v) in &saved {
-            inner.insert(format!("^{k}"), v.clone());
+        let f = self.fns.get(name).ok_or_else(|| format!("call of untranslated function {name}"))?.clone();
+        if self.depth > 5 {
+            return Err("call depth".into());
         }
         let params: Vec<_> = f.sig.inputs.iter().filter_map(|a| match a {
             syn::FnArg::Typed(t) => match &*t.pat {
@@ -185,34 +354,44 @@ impl<'a> Ex<'a> {
             _ => None,
         }).collect();
         if params.len() != args.len() {
-            self.env = saved;
             return Err(format!("arity of {name}"));
         }
+        let saved = std::mem::take(&mut self.env);
+        // the caller's entries stay reachable through references: everything moves under a `^` prefix
+        let mut inner: HashMap<String, Val> = HashMap::new();
+        for (k, v) in &saved {
+            inner.insert(format!("^{k}"), pre(v));
+        }
+        if let Some(sp) = self_prefix {
+            let want = format!("^{sp}.");
+            let keys: Vec<String> = inner.keys().filter(|k| k.starts_with(&want)).cloned().collect();
+            for k in keys {
+                inner.insert(format!("self.{}", &k[want.len()..]), Val::Ref(k.clone()));
+            }
+        }
         for (p, a) in params.iter().zip(args) {
-            let a = match a {
-                Val::Ref(k) => Val::Ref(format!("^{k}")),
-                o => o,
-            };
-            inner.insert(p.clone(), a);
+            inner.insert(p.clone(), pre(&a));
         }
         self.env = inner;
         self.depth += 1;
+        let saved_ret = self.ret.take();
         let r = self.block(&f.block);
+        let early = self.ret.take();
+        self.ret = saved_ret;
         self.depth -= 1;
         // write back caller entries (they may have been mutated through references)
         let inner = std::mem::take(&mut self.env);
         let mut restored = saved;
+        // a returned reference to a callee local cannot outlive the call: materialise locals it names
+        let r = r.map(|v| early.unwrap_or(v));
         for (k, v) in inner {
             if let Some(orig) = k.strip_prefix('^') {
-                restored.insert(orig.to_string(), v);
+                restored.insert(orig.to_string(), unpre(&v));
             }
         }
         self.env = restored;
         let r = r?;
-        Ok(match r {
-            Val::Ref(k) => Val::Ref(k.trim_start_matches('^').to_string()),
-            o => o,
-        })
+        Ok(unpre(&r))
     }
     fn eval(&mut self, e: &Expr) -> R<Val> {
         match e {
@@ -225,6 +404,68 @@ impl<'a> Ex<'a> {
             Expr::Path(p) => {
                 let id = p.path.get_ident().ok_or("qualified path as value")?.to_string();
                 self.env.get(&id).cloned().ok_or(format!("unknown variable {id}"))
+            }
+            Expr::Range(r) => {
+                let mut get = |x: &Option<Box<Expr>>| -> R<Option<usize>> {
+                    match x {
+                        None => Ok(None),
+                        Some(e) => match self.eval(e)? {
+                            Val::N(n) => Ok(Some(n as usize)),
+                            o => Err(format!("range bound is not a literal: {:?}", o)),
+                        },
+                    }
+                };
+                let a = get(&r.start)?;
+                let b = get(&r.end)?;
+                if matches!(r.limits, syn::RangeLimits::Closed(_)) {
+                    return Err("closed range".into());
+                }
+                Ok(Val::Range(a, b))
+            }
+            Expr::Index(ix) if matches!(&*ix.index, Expr::Range(_)) => {
+                let Val::Range(a, b) = self.eval(&ix.index)? else { return Err("range".into()) };
+                let (k, s0, n) = self.sliceable(&ix.expr)?;
+                let a = a.unwrap_or(0);
+                let b = b.unwrap_or(n);
+                if a > b || b > n {
+                    return Err("slice range out of bounds (the source would panic)".into());
+                }
+                Ok(Val::Slice(k, s0 + a, b - a))
+            }
+            Expr::If(i) => {
+                let c = match self.eval(&i.cond)? {
+                    Val::Bool(b) => b,
+                    o => return Err(format!("condition is not decided by literal lengths: {:?}", o)),
+                };
+                if c {
+                    self.block(&i.then_branch)
+                } else if let Some((_, e)) = &i.else_branch {
+                    self.eval(e)
+                } else {
+                    Ok(Val::Unit)
+                }
+            }
+            Expr::Return(r) => {
+                let v = match &r.expr {
+                    Some(e) => self.eval(e)?,
+                    None => Val::Unit,
+                };
+                // a returned local array is returned by value
+                self.ret = Some(v);
+                Ok(Val::Unit)
+            }
+            Expr::Macro(m) => {
+                let n = m.mac.path.segments.last().map(|s| s.ident.to_string()).unwrap_or_default();
+                if n.starts_with("debug_assert") {
+                    Ok(Val::Unit) // release semantics; the panicking profile is HH/PortablePanic.lean's business
+                } else {
+                    Err(format!("macro {n}!"))
+                }
+            }
+            Expr::Repeat(r) => {
+                let x = self.eval(&r.expr)?;
+                let Val::N(n) = self.eval(&r.len)? else { return Err("repeat length".into()) };
+                Ok(Val::Arr(vec![x; n as usize]))
             }
             Expr::Field(_) | Expr::Index(_) => {
                 let (k, idx) = self.place_key(e)?;
@@ -249,17 +490,34 @@ impl<'a> Ex<'a> {
                 }
                 UnOp::Not(_) => {
                     let w = self.eval(&u.expr)?;
+                    match w {
+                        Val::N(n) => return Ok(Val::N(!n)),
+                        Val::Bool(b) => return Ok(Val::Bool(!b)),
+                        _ => {}
+                    }
                     let w = self.word(&w)?;
                     Ok(self.bind(format!("(~~~{w})")))
                 }
                 _ => Err("unary".into()),
             },
             Expr::Reference(r) => {
-                let (k, idx) = self.place_key(&r.expr)?;
-                if idx.is_some() {
-                    return Err("reference to element".into());
+                if let Expr::Index(ix) = &*r.expr {
+                    if matches!(&*ix.index, Expr::Range(_)) {
+                        return self.eval(&r.expr);
+                    }
                 }
-                Ok(Val::Ref(k))
+                if let Expr::Path(p) = &*r.expr {
+                    if let Some(id) = p.path.get_ident() {
+                        if let Some(v @ (Val::Slice(..) | Val::List(_))) = self.env.get(&id.to_string()) {
+                            return Ok(v.clone());
+                        }
+                    }
+                }
+                let (k, idx) = self.place_key(&r.expr)?;
+                match idx {
+                    Some(i) => Ok(Val::ElemRef(k, i)),
+                    None => Ok(Val::Ref(k)),
+                }
             }
             Expr::Binary(b) => {
                 let l = self.eval(&b.left)?;
@@ -279,6 +537,90 @@ impl<'a> Ex<'a> {
                     v.push(self.eval(x)?);
                 }
                 Ok(Val::Tup(v))
+            }
+            Expr::MethodCall(m) if self.struct_method(m).is_some() => {
+                let (prefix, fname) = self.struct_method(m).unwrap();
+                let mut args = Vec::new();
+                for a in &m.args {
+                    args.push(self.eval(a)?);
+                }
+                self.call_with_self(&fname, Some(&prefix), args)
+            }
+            Expr::MethodCall(m) if matches!(m.method.to_string().as_str(), "len" | "is_empty" | "iter" | "iter_mut" | "zip" | "chunks_exact" | "clone_from_slice" | "copy_from_slice" | "get" | "get_mut" | "unwrap_or" | "unwrap_or_default" | "as_slice") => {
+                let name = m.method.to_string();
+                match name.as_str() {
+                    "len" | "is_empty" => {
+                        let (_, _, n) = self.sliceable(&m.receiver)?;
+                        Ok(if name == "len" { Val::N(n as u64) } else { Val::Bool(n == 0) })
+                    }
+                    "as_slice" => {
+                        let (k, a, n) = self.sliceable(&m.receiver)?;
+                        Ok(Val::Slice(k, a, n))
+                    }
+                    "iter" => {
+                        let v = self.eval(&m.receiver)?;
+                        Ok(Val::List(self.items(v)?))
+                    }
+                    "iter_mut" => {
+                        let (k, a, n) = self.sliceable(&m.receiver)?;
+                        Ok(Val::List((a..a + n).map(|i| Val::ElemRef(k.clone(), i)).collect()))
+                    }
+                    "chunks_exact" => {
+                        let (k, a, n) = self.sliceable(&m.receiver)?;
+                        let Some(Val::N(c)) = m.args.first().map(|x| self.eval(x)).transpose()? else { return Err("chunk size".into()) };
+                        let c = c as usize;
+                        if c == 0 {
+                            return Err("chunk size 0".into());
+                        }
+                        Ok(Val::List((0..n / c).map(|j| Val::Slice(k.clone(), a + j * c, c)).collect()))
+                    }
+                    "zip" => {
+                        let l = self.eval(&m.receiver)?;
+                        let l = self.items(l)?;
+                        let r = self.eval(m.args.first().ok_or("zip arg")?)?;
+                        let r = self.items(r)?;
+                        Ok(Val::List(l.into_iter().zip(r).map(|(a, b)| Val::Tup(vec![a, b])).collect()))
+                    }
+                    "clone_from_slice" | "copy_from_slice" => {
+                        let (k, a, n) = self.sliceable(&m.receiver)?;
+                        let src = self.eval(m.args.first().ok_or("copy arg")?)?;
+                        let src = self.items(src)?;
+                        if src.len() != n {
+                            return Err("copy_from_slice length mismatch (the source would panic)".into());
+                        }
+                        match self.env.get_mut(&k) {
+                            Some(Val::Arr(arr)) if a + n <= arr.len() => {
+                                for (i, x) in src.into_iter().enumerate() {
+                                    arr[a + i] = x;
+                                }
+                            }
+                            _ => return Err("copy into a dangling slice".into()),
+                        }
+                        Ok(Val::Unit)
+                    }
+                    "get" | "get_mut" => {
+                        let (k, s0, n) = self.sliceable(&m.receiver)?;
+                        let Val::Range(a, b) = self.eval(m.args.first().ok_or("get arg")?)? else { return Err("get of a non-range".into()) };
+                        let a = a.unwrap_or(0);
+                        let b = b.unwrap_or(n);
+                        Ok(if a > b || b > n { Val::Opt(None) } else { Val::Opt(Some(Box::new(Val::Slice(k, s0 + a, b - a)))) })
+                    }
+                    "unwrap_or" => {
+                        let r = self.eval(&m.receiver)?;
+                        let d = self.eval(m.args.first().ok_or("unwrap_or arg")?)?;
+                        match r {
+                            Val::Opt(Some(x)) => Ok(*x),
+                            Val::Opt(None) => Ok(d),
+                            _ => Err("unwrap_or of a non-option".into()),
+                        }
+                    }
+                    "unwrap_or_default" => match self.eval(&m.receiver)? {
+                        Val::Opt(Some(x)) => Ok(*x),
+                        Val::Opt(None) => Ok(Val::List(vec![])),
+                        _ => Err("unwrap_or_default of a non-option".into()),
+                    },
+                    _ => Err("method".into()),
+                }
             }
             Expr::MethodCall(m) => {
                 let name = m.method.to_string();
@@ -322,7 +664,12 @@ impl<'a> Ex<'a> {
                     }
                     "u64" => match v {
                         Val::W32(x) => Ok(self.bind(format!("(BitVec.setWidth 64 {x})"))),
+                        Val::B(x) => Ok(self.bind(format!("(BitVec.setWidth 64 {x})"))),
                         o => Ok(o),
+                    },
+                    "usize" => match v {
+                        Val::N(n) => Ok(Val::N(n)),
+                        _ => Err("cast of a non-literal to usize".into()),
                     },
                     _ => Err(format!("cast to {ty}")),
                 }
@@ -335,8 +682,18 @@ impl<'a> Ex<'a> {
                         let v = self.eval(&c.args[0])?;
                         return match v {
                             Val::W32(x) => Ok(self.bind(format!("(BitVec.setWidth 64 {x})"))),
+                            Val::B(x) => Ok(self.bind(format!("(BitVec.setWidth 64 {x})"))),
                             o => Ok(o),
                         };
+                    }
+                    if segs == ["u64", "from_le_bytes"] && c.args.len() == 1 {
+                        let v = self.eval(&c.args[0])?;
+                        let Val::Arr(a) = v else { return Err("from_le_bytes of a non-array".into()) };
+                        if a.len() != 8 {
+                            return Err("from_le_bytes arity".into());
+                        }
+                        let bs: Vec<String> = a.iter().map(|x| self.byte(x)).collect::<R<_>>()?;
+                        return Ok(self.bind(format!("(HH.le64 [{}])", bs.join(", "))));
                     }
                 }
                 let fname = match &*c.func {
@@ -423,13 +780,37 @@ impl<'a> Ex<'a> {
                         }
                     }
                 }
-                Err("unsupported loop".into())
+                // any iterator whose items are known (literal lengths)
+                let it = self.eval(&f.expr)?;
+                let items = self.items(it)?;
+                for x in items {
+                    self.bind_pat(&f.pat, x)?;
+                    self.block(&f.body)?;
+                    if self.ret.is_some() {
+                        break;
+                    }
+                }
+                Ok(Val::Unit)
             }
             Expr::Block(b) => self.block(&b.block),
             _ => Err(format!("unsupported expression kind: {}", quote::quote!(#e).to_string().chars().take(60).collect::<String>())),
         }
     }
     fn compound(&mut self, b: &syn::ExprBinary) -> R<Option<Val>> {
+        if matches!(b.op, BinOp::AddAssign(_) | BinOp::SubAssign(_)) {
+            let cur = self.eval(&b.left)?;
+            let cur = match cur {
+                Val::Ref(k) => self.env.get(&k).cloned().ok_or("dangling")?,
+                o => o,
+            };
+            let rhs = self.eval(&b.right)?;
+            if let (Val::N(_), Val::N(_)) = (&cur, &rhs) {
+                let v = self.bin(&b.op, cur, rhs)?;
+                self.store(&b.left, v)?;
+                return Ok(Some(Val::Unit));
+            }
+            return Err("+= / -= on a non-literal (may overflow-check)".into());
+        }
         let assign = matches!(b.op, BinOp::BitXorAssign(_) | BinOp::BitOrAssign(_) | BinOp::BitAndAssign(_) | BinOp::ShlAssign(_) | BinOp::ShrAssign(_));
         if !assign {
             return Ok(None);
@@ -476,20 +857,73 @@ impl<'a> Ex<'a> {
                 let v = self.eval(e)?;
                 Ok(if semi.is_some() { Val::Unit } else { v })
             }
-            _ => Err("item/macro statement".into()),
+            Stmt::Macro(m) => {
+                let n = m.mac.path.segments.last().map(|s| s.ident.to_string()).unwrap_or_default();
+                if n.starts_with("debug_assert") {
+                    Ok(Val::Unit)
+                } else {
+                    Err(format!("macro {n}!"))
+                }
+            }
+            _ => Err("item statement".into()),
+        }
+    }
+    fn bind_pat(&mut self, p: &Pat, v: Val) -> R<()> {
+        match p {
+            Pat::Ident(i) => {
+                self.env.insert(i.ident.to_string(), v);
+                Ok(())
+            }
+            Pat::Wild(_) => Ok(()),
+            Pat::Tuple(t) => {
+                let Val::Tup(vs) = v else { return Err("tuple pattern on non-tuple".into()) };
+                if vs.len() != t.elems.len() {
+                    return Err("tuple pattern arity".into());
+                }
+                for (p, x) in t.elems.iter().zip(vs) {
+                    self.bind_pat(p, x)?;
+                }
+                Ok(())
+            }
+            Pat::Type(t) => self.bind_pat(&t.pat, v),
+            _ => Err("pattern".into()),
+        }
+    }
+    /// `self.f(..)` / `self.buffer.f(..)` where `f` is a translated inherent method
+    fn struct_method(&self, m: &syn::ExprMethodCall) -> Option<(String, String)> {
+        let name = m.method.to_string();
+        match &*m.receiver {
+            Expr::Path(p) if p.path.is_ident("self") && self.fns.contains_key(&name) => Some(("self".into(), name)),
+            Expr::Field(f) => {
+                if let (Expr::Path(p), syn::Member::Named(id)) = (&*f.base, &f.member) {
+                    let key = format!("HashPacket::{name}");
+                    if p.path.is_ident("self") && id == "buffer" && self.fns.contains_key(&key) {
+                        return Some(("self.buffer".into(), key));
+                    }
+                }
+                None
+            }
+            _ => None,
         }
     }
     fn block(&mut self, b: &syn::Block) -> R<Val> {
         let mut last = Val::Unit;
         for s in &b.stmts {
             last = self.stmt(s)?;
+            if self.ret.is_some() {
+                return Ok(Val::Unit);
+            }
         }
         Ok(last)
     }
     fn lets_text(&self) -> String {
         let mut o = String::new();
         for (n, e) in &self.lets {
-            let _ = writeln!(o, "  let {n} : BitVec 64 := {e}");
+            if n.contains(" : ") {
+                let _ = writeln!(o, "  let {n} := {e}");
+            } else {
+                let _ = writeln!(o, "  let {n} : BitVec 64 := {e}");
+            }
         }
         o
     }
@@ -509,12 +943,23 @@ fn v4_text(ex: &Ex, v: &Val) -> R<String> {
         return Err("array length".into());
     }
     let w: Vec<String> = a.iter().map(|x| ex.word(x)).collect::<R<_>>()?;
+    // `⟨x.l0, x.l1, x.l2, x.l3⟩` is `x`
+    if let Some(base) = w[0].strip_suffix(".l0") {
+        if !base.is_empty() && (1..4).all(|i| w[i] == format!("{base}.l{i}")) {
+            return Ok(base.to_string());
+        }
+    }
     Ok(format!("⟨{}, {}, {}, {}⟩", w[0], w[1], w[2], w[3]))
 }
 fn st_text(ex: &Ex) -> R<String> {
     let mut parts = Vec::new();
     for f in ["v0", "v1", "mul0", "mul1"] {
-        parts.push(v4_text(ex, ex.env.get(&format!("self.{f}")).ok_or("state field")?)?);
+        parts.push(v4_text(ex, ex.env.get(&ex.chase(format!("self.{f}"))).ok_or("state field")?)?);
+    }
+    if let Some(base) = parts[0].strip_suffix(".v0") {
+        if !base.is_empty() && parts[1] == format!("{base}.v1") && parts[2] == format!("{base}.mul0") && parts[3] == format!("{base}.mul1") {
+            return Ok(base.to_string());
+        }
     }
     Ok(format!("⟨{}, {}, {}, {}⟩", parts[0], parts[1], parts[2], parts[3]))
 }
@@ -546,10 +991,33 @@ fn main() {
             }
         }
     }
+    // src/internal.rs: `HashPacket`'s inherent methods (as `HashPacket::name`) and `unordered_load3`
+    if let Some(ip) = args.get(4) {
+        if let Ok(isrc) = std::fs::read_to_string(ip) {
+            if let Ok(ifile) = syn::parse_file(&isrc) {
+                for it in &ifile.items {
+                    match it {
+                        Item::Impl(im) if im.trait_.is_none() => {
+                            let ty = { let t = &im.self_ty; quote::quote!(#t).to_string() };
+                            for ii in &im.items {
+                                if let ImplItem::Fn(f) = ii {
+                                    fns.insert(format!("{ty}::{}", f.sig.ident), f.clone());
+                                }
+                            }
+                        }
+                        Item::Fn(f) => {
+                            fns.insert(f.sig.ident.to_string(), syn::ImplItemFn { attrs: vec![], vis: f.vis.clone(), defaultness: None, sig: f.sig.clone(), block: (*f.block).clone() });
+                        }
+                        _ => {}
+                    }
+                }
+            }
+        }
+    }
     let mut out = String::new();
     let mut thms = String::new();
     let mut status: Vec<(String, String)> = Vec::new();
-    out.push_str("-- GENERATED by /verif/harness/facts (coregen) from src/portable.rs; do not edit.\nimport HH.Portable\nnamespace HH.Gen\n\n");
+    out.push_str("-- GENERATED by /verif/harness/facts (coregen) from src/portable.rs; do not edit.\nimport HH.Portable\nset_option linter.unusedVariables false\nnamespace HH.Gen\n\n");
 
     // helper closure style: run one translation, append on success
     let mut emit = |name: &str, r: R<(String, String)>| match r {
@@ -684,6 +1152,77 @@ fn main() {
             Ok((d, t))
         })());
     }
+
+    // ---- byte level: one instance per buffer length (the lengths are the only thing control flow depends on)
+    let bvars = |n: usize| -> Vec<String> { (0..n).map(|i| format!("b{i}")).collect() };
+    let binders = |n: usize| -> String { if n == 0 { String::new() } else { format!(" ({} : BitVec 8)", bvars(n).join(" ")) } };
+    let blist = |n: usize| -> String { format!("[{}]", bvars(n).join(", ")) };
+
+    // data_to_lanes on a 32-byte packet
+    emit("data_to_lanes", (|| {
+        let mut ex = Ex::new(&fns);
+        ex.env.insert("#d".into(), Val::Arr(bvars(32).into_iter().map(Val::B).collect()));
+        let r = ex.call_fn("data_to_lanes", vec![Val::Slice("#d".into(), 0, 32)])?;
+        let d = format!("def dataToLanes{} : V4 :=\n{}  {}\n", binders(32), ex.lets_text(), v4_text(&ex, &r)?);
+        let t = format!("theorem dataToLanes_eq{} : dataToLanes {} = P.dataToLanes {} := rfl\n", binders(32), bvars(32).join(" "), blist(32));
+        Ok((d, t))
+    })());
+
+    // remainder(bytes) for every length 0..=32
+    emit("remainder", (|| {
+        let mut d = String::new();
+        let mut t = String::new();
+        for n in 0..=32usize {
+            let mut ex = Ex::new(&fns);
+            ex.env.insert("#bytes".into(), Val::Arr(bvars(n).into_iter().map(Val::B).collect()));
+            let r = ex.call_fn("remainder", vec![Val::Slice("#bytes".into(), 0, n)]).map_err(|e| format!("length {n}: {e}"))?;
+            let Val::Arr(a) = r else { return Err("result shape".into()) };
+            if a.len() != 32 {
+                return Err("packet length".into());
+            }
+            let bs: Vec<String> = a.iter().map(|x| ex.byte(x)).collect::<R<_>>()?;
+            let _ = write!(d, "def remainder{n}{} : List (BitVec 8) :=\n  [{}]\n", binders(n), bs.join(", "));
+            let _ = write!(t, "theorem remainder{n}_eq{} : remainder{n} {} = P.remainder {} := by\n  simp only [P.remainder, List.length] <;> rfl\n", binders(n), bvars(n).join(" "), blist(n));
+        }
+        Ok((d, t))
+    })());
+
+    // update_remainder for every pending length 1..=31 (buffer bytes symbolic, the stale tail included)
+    emit("update_remainder", (|| {
+        let f = fns.get("update_remainder").ok_or("missing")?.clone();
+        let mut d = String::new();
+        let mut t = String::new();
+        for n in 1..=31usize {
+            let mut ex = Ex::new(&fns);
+            ex.opaque = vec!["update_lanes".into(), "update".into(), "data_to_lanes".into()];
+            self_env(&mut ex);
+            ex.env.insert("self.buffer.buf".into(), Val::Arr(bvars(32).into_iter().map(Val::B).collect()));
+            ex.env.insert("self.buffer.buf_index".into(), Val::N(n as u64));
+            ex.block(&f.block).map_err(|e| format!("length {n}: {e}"))?;
+            let _ = write!(d, "def updateRemainder{n} (s : St){} : St :=\n{}  {}\n", binders(32), ex.lets_text(), st_text(&ex)?);
+            let _ = write!(t, "theorem updateRemainder{n}_eq (s : St){} : updateRemainder{n} s {} = P.updateRemainder ⟨s, ⟨{}, {n}⟩⟩ := by\n  show _ = P.update (P.updateLanes s {n}) (P.dataToLanes (P.remainder {}))\n  rw [← remainder{n}_eq, ← update_eq, ← updateLanes_eq]; unfold updateRemainder{n} remainder{n}; rw [dataToLanes_eq]\n", binders(32), bvars(32).join(" "), blist(32), blist(n));
+        }
+        Ok((d, t))
+    })());
+
+    // unordered_load3 (src/internal.rs) for the lengths its callers pass (0..=3) and a few more
+    emit("unordered_load3", (|| {
+        if !fns.contains_key("unordered_load3") {
+            return Err("missing".into());
+        }
+        let mut d = String::new();
+        let mut t = String::new();
+        // (a non-empty multiple of 4 makes the source index `from[usize::MAX]`: it panics, no caller passes one)
+        for n in [0usize, 1, 2, 3, 5, 6, 7] {
+            let mut ex = Ex::new(&fns);
+            ex.release_plus = true;
+            ex.env.insert("#from".into(), Val::Arr(bvars(n).into_iter().map(Val::B).collect()));
+            let r = ex.call_fn("unordered_load3", vec![Val::Slice("#from".into(), 0, n)]).map_err(|e| format!("length {n}: {e}"))?;
+            let _ = write!(d, "def unorderedLoad3_{n}{} : BitVec 64 :=\n{}  {}\n", binders(n), ex.lets_text(), ex.word(&r)?);
+            let _ = write!(t, "theorem unorderedLoad3_{n}_eq{} : unorderedLoad3_{n} {} = HH.unorderedLoad3 {} := by\n  simp only [HH.unorderedLoad3, List.length, List.isEmpty] <;> rfl\n", binders(n), bvars(n).join(" "), blist(n));
+        }
+        Ok((d, t))
+    })());
 
     out.push_str("/-! ### the translated source equals the hand-written model, for all inputs -/\n\n");
     out.push_str(&thms);
